@@ -86,12 +86,13 @@ pub fn labels(cx: &mut Ctx, data: &str) {
     }
     // whitespace paddings: every pair (prefix, suffix) over a set of candidate pads
     let pads: Vec<Vec<u8>> = vec![vec![], vec![9], vec![10], vec![11], vec![12], vec![13], vec![32], vec![0], vec![0xA0], vec![0x85], vec![32, 9], vec![13, 10], vec![32, 11], vec![0x1C], vec![0xC2, 0xA0], vec![0xE2, 0x80, 0x83]];
+    // every label meets a small core of paddings; a seed-rotated quarter (all in thorough) meets every pair
+    let core_pads: Vec<Vec<u8>> = vec![vec![], vec![32], vec![9], vec![10], vec![12], vec![13], vec![11], vec![32, 11], vec![0]];
     for (li, l) in labels.iter().enumerate() {
-        if !cx.thorough && (li + cx.seed as usize) % 4 != 0 {
-            continue;
-        }
-        for p in pads.iter() {
-            for q in pads.iter() {
+        let full = cx.thorough || (li + cx.seed as usize) % 4 == 0;
+        let pl = if full { &pads } else { &core_pads };
+        for p in pl.iter() {
+            for q in pl.iter() {
                 let mut s = p.clone();
                 s.extend(l);
                 s.extend(q);
@@ -582,5 +583,97 @@ pub fn forbom(cx: &mut Ctx) {
         js_u8(&mut l, s);
         let _ = write!(l, ",\"name\":\"{}\",\"len\":{}}}", name, len);
         cx.sh.line(&l);
+    }
+}
+
+// ------------------------------------------------------------------------------------------------
+// C07 overflow clause: max_*_buffer_length* with byte_length near usize::MAX in reachable short states.
+fn limbs(v: u64) -> [u64; 4] {
+    [v & 0xFFFF, (v >> 16) & 0xFFFF, (v >> 32) & 0xFFFF, (v >> 48) & 0xFFFF]
+}
+fn js_limbs(s: &mut String, v: Option<usize>) {
+    match v {
+        Some(x) => {
+            let l = limbs(x as u64);
+            let _ = write!(s, "[{},{},{},{}]", l[0], l[1], l[2], l[3]);
+        }
+        None => s.push_str("[]"),
+    }
+}
+
+pub fn query_overflow(cx: &mut Ctx) {
+    let max = usize::MAX;
+    let mut ns: Vec<usize> = vec![0, 1, 2, 3, 1 << 32, (1 << 32) - 1, (1 << 32) + 1, 1 << 61, 1 << 62, (1 << 62) - 1, (1 << 63) - 1, 1 << 63, (1 << 63) + 1, max, max - 1, max - 2];
+    for d in [2usize, 3, 4, 5, 6] {
+        for k in 0..=4usize {
+            ns.push(max / d - 2 + k);
+        }
+    }
+    for _ in 0..40 {
+        ns.push(cx.rng.next() as usize);
+        ns.push((cx.rng.next() >> cx.rng.below(40)) as usize);
+    }
+    for e in ALL.iter() {
+        let alpha = alphabet(e.name());
+        let mut prefixes: Vec<(Vec<u8>, &str)> = vec![(vec![], "off"), (vec![], "sniff"), (vec![0xEF], "sniff"), (vec![0xEF, 0xBB], "sniff"), (vec![0xFE], "sniff"), (vec![0x1B], "off"), (vec![0x1B, 0x24], "off")];
+        for &b in alpha.iter() {
+            prefixes.push((vec![b], "off"));
+            prefixes.push((vec![b, alpha[alpha.len() / 2]], "off"));
+        }
+        for (p, mode) in prefixes.iter() {
+            for q in ["utf16", "utf8", "utf8wr"] {
+                let mut d = if *mode == "sniff" { e.new_decoder() } else { e.new_decoder_without_bom_handling() };
+                let mut dst = [0u16; 64];
+                let _ = catch_unwind(AssertUnwindSafe(|| {
+                    let _ = d.decode_to_utf16_without_replacement(p, &mut dst, false);
+                }));
+                for &n in ns.iter() {
+                    let r = catch_unwind(AssertUnwindSafe(|| match q {
+                        "utf16" => d.max_utf16_buffer_length(n),
+                        "utf8" => d.max_utf8_buffer_length_without_replacement(n),
+                        _ => d.max_utf8_buffer_length(n),
+                    }));
+                    let h = cx.sh.begin();
+                    let mut s = String::new();
+                    let _ = write!(s, "{{\"ev\":\"QO\",\"h\":{},\"side\":\"dec\",\"enc\":\"{}\",\"used\":\"{}\",\"q\":\"{}\",\"prefix\":", h, e.name(), d.encoding().name(), q);
+                    js_u8(&mut s, p);
+                    let _ = write!(s, ",\"mode\":\"{}\",\"n\":", mode);
+                    js_limbs(&mut s, Some(n));
+                    s.push_str(",\"ret\":");
+                    match r {
+                        Ok(v) => {
+                            js_limbs(&mut s, v);
+                            s.push_str(",\"panic\":false}");
+                        }
+                        Err(_) => s.push_str("[],\"panic\":true}"),
+                    }
+                    cx.sh.line(&s);
+                }
+            }
+        }
+        for q in ["u8", "u8if", "u16", "u16if"] {
+            let enc = e.new_encoder();
+            for &n in ns.iter() {
+                let r = catch_unwind(AssertUnwindSafe(|| match q {
+                    "u8" => enc.max_buffer_length_from_utf8_without_replacement(n),
+                    "u8if" => enc.max_buffer_length_from_utf8_if_no_unmappables(n),
+                    "u16" => enc.max_buffer_length_from_utf16_without_replacement(n),
+                    _ => enc.max_buffer_length_from_utf16_if_no_unmappables(n),
+                }));
+                let h = cx.sh.begin();
+                let mut s = String::new();
+                let _ = write!(s, "{{\"ev\":\"QO\",\"h\":{},\"side\":\"enc\",\"enc\":\"{}\",\"used\":\"{}\",\"q\":\"{}\",\"prefix\":[],\"mode\":\"off\",\"n\":", h, e.name(), enc.encoding().name(), q);
+                js_limbs(&mut s, Some(n));
+                s.push_str(",\"ret\":");
+                match r {
+                    Ok(v) => {
+                        js_limbs(&mut s, v);
+                        s.push_str(",\"panic\":false}");
+                    }
+                    Err(_) => s.push_str("[],\"panic\":true}"),
+                }
+                cx.sh.line(&s);
+            }
+        }
     }
 }
